@@ -209,11 +209,20 @@ def rule_ag_h5keys(repo, col):
     rule = 'AG-H5KEYS'
     w = WriterModel(repo)
     r = ReaderModel(repo)
+    wcfg = CFG(w.func)
     for a, node in sorted(r.attrs.items()):
         col.check(a in w.attrs, rule, TABLE, 'Table.from_hdf5',
                   'attr:%s' % a, node, 'written by to_hdf5',
                   "from_hdf5 reads attribute '%s' which to_hdf5 never "
                   'writes (KeyError on load)' % a)
+        if a in w.attrs:
+            avoid = {wcfg.node(n) for n in w.attrs[a]}
+            leak = wcfg.path_avoiding(wcfg.entry, wcfg.exit, avoid)
+            col.check(not leak, rule, TABLE, 'Table.to_hdf5',
+                      'attr-every-path:%s' % a, w.attrs[a][0],
+                      'written on every path',
+                      "a path through to_hdf5 does not write attribute "
+                      "'%s', which from_hdf5 reads unconditionally" % a)
     written = set(w.groups) | set(w.datasets)
     for p, node in sorted(r.paths.items()):
         ok = p in written
